@@ -77,7 +77,7 @@ def fmt(e):
             return str(v - (1 << e[1]))
         return str(v)
     if k == "arg":
-        return "arg%d" % e[1]
+        return "arg%s" % (e[1],)
     if k == "g":
         return "@" + e[1]
     if k == "fn":
@@ -665,3 +665,28 @@ def expr_bits(e):
     if k == "ld":
         return e[2] * 8 if e[2] else None
     return None
+
+
+ATOM_KINDS = ("ld", "ald", "cx", "cxres", "rmw", "call", "arg", "g", "alloca", "fn", "null", "undef", "va_arg", "memval")
+
+
+def arith_subexprs(e):
+    """Sub-expressions of the arithmetic skeleton of e: does not descend into atoms
+    (memory contents, atomic results, call results), whose internals are addresses/operands."""
+    if not _is_expr(e):
+        return
+    yield e
+    if e[0] in ATOM_KINDS:
+        return
+    for x in e[1:]:
+        if isinstance(x, tuple):
+            if _is_expr(x):
+                for y in arith_subexprs(x):
+                    yield y
+            else:
+                for z in x:
+                    if isinstance(z, tuple):
+                        for zz in z:
+                            if _is_expr(zz):
+                                for y in arith_subexprs(zz):
+                                    yield y
